@@ -35,6 +35,28 @@ fn main() -> ExitCode {
             "replay" => cmd_replay(&args[2..]),
             "selftest" => cmd_selftest(&args[2..]),
             "witnesses" => cmd_witnesses(),
+            "fidelity" => {
+                let n: usize = args.get(2).and_then(|s| s.parse().ok()).unwrap_or(300);
+                let cfg = check::CheckCfg {
+                    id: "C18",
+                    profiles: vec![],
+                    tier: "quick".into(),
+                    seed: seed_from_env(),
+                    scenarios: 0,
+                    max_single_faults: 0,
+                    multi_fault_plans: 0,
+                    layouts_per_scenario: 1,
+                    threads: 1,
+                    wall_limit_s: 100,
+                    verif_dir: verif_dir(),
+                };
+                let (n, mm) = check::fidelity(&cfg, n);
+                println!("fidelity: {} histories compared, {} mismatches", n, mm.len());
+                for m in &mm {
+                    println!("{}", m);
+                }
+                if mm.is_empty() { 0 } else { 2 }
+            }
             other => {
                 eprintln!("unknown command {}", other);
                 2
